@@ -9,6 +9,7 @@ import (
 	"encoding/hex"
 	"encoding/json"
 	"fmt"
+	"io"
 	"math"
 	"math/big"
 	"sort"
@@ -379,6 +380,17 @@ func ModelLine(op, model string) (string, *LeafProblem) {
 			}
 			return "ok " + hx.Hex(out), nil
 		}
+	case "dec": // Decoder.Decode: as unm, without the More() check
+		if len(ws) >= 2 && ws[0] == "ok" {
+			out, lp := Expand(ws[2:])
+			if lp != nil {
+				return "leaf-problem", lp
+			}
+			if !json.Valid(out) {
+				return "err -", nil
+			}
+			return "ok " + hx.Hex(out), nil
+		}
 	case "print":
 		if len(ws) >= 1 && ws[0] != "bad-op" {
 			out, lp := Expand(ws)
@@ -389,4 +401,58 @@ func ModelLine(op, model string) (string, *LeafProblem) {
 		}
 	}
 	return model, nil
+}
+
+// ChunkReader hands out at most N bytes per Read (short reads).
+type ChunkReader struct {
+	Data []byte
+	N    int
+}
+
+func (c *ChunkReader) Read(p []byte) (int, error) {
+	if len(c.Data) == 0 {
+		return 0, io.EOF
+	}
+	n := c.N
+	if n > len(p) {
+		n = len(p)
+	}
+	if n > len(c.Data) {
+		n = len(c.Data)
+	}
+	copy(p, c.Data[:n])
+	c.Data = c.Data[n:]
+	return n, nil
+}
+
+// ImplDecode runs jsonx.NewDecoder(reader with short reads).Decode into a RawMessage.
+func ImplDecode(in []byte, chunk int) string {
+	d := jsonx.NewDecoder(&ChunkReader{Data: append([]byte(nil), in...), N: chunk})
+	var r json.RawMessage
+	if errs := d.Decode(&r); errs != nil {
+		return "err " + ErrCode(errs[0])
+	}
+	return "ok " + hx.Hex([]byte(r))
+}
+
+// BoundaryRunes are 2-, 3- and 4-byte characters; BoundaryOffsets the byte offsets around
+// the read-buffer sizes at which they are placed.
+var BoundaryRunes = []string{"\u00e9", "\u4e2d", "\U0001f600"}
+
+func BoundaryOffsets(bases []int) []int {
+	var out []int
+	for _, b := range bases {
+		for d := -2; d <= 2; d++ {
+			out = append(out, b+d)
+		}
+	}
+	return out
+}
+
+// Pad returns n ASCII bytes.
+func Pad(n int) string {
+	if n < 0 {
+		n = 0
+	}
+	return strings.Repeat("abcdefghij", n/10+1)[:n]
 }
